@@ -301,7 +301,7 @@ def classify(o, q, exp, got):
 
 
 def run(ctx):
-    for i in ctx.indices(120 if ctx.tier == 'quick' else 3000, 'random'):
+    for i in ctx.indices(600 if ctx.tier == 'quick' else 3000, 'random'):
         one(ctx, i)
 
 
